@@ -108,6 +108,13 @@ def _reparse_raw_base(
         elif copy.a.__class__ is not self.a.__class__:  # only block header reparsed and the old body will be reused, must still be same kind of block
             raise _ReparseAll
 
+        if (scaffold
+            and copy.a.__class__ is ExceptHandler
+            and (parent := self.parent)
+            and copy.parent.a.__class__ is not parent.a.__class__
+        ):  # `except` <-> `except*` changes the kind of the parent `try` and is only valid if all its handlers change
+            raise _ReparseAll
+
         if scaffold and not isinstance(path, str):  # the reparsed source must give exactly one node at each level of the path, otherwise the statement was split or something following it was pulled in or pushed out
             a = copy_root.a
 
